@@ -1,14 +1,42 @@
 """Minimisation: greedy descent over candidate simplifications proposed by the
 property module, while the *same violation class* persists.  Plus generic
 candidate generators (ddmin-style) for lists, byte strings and integers."""
+import os
 import time
 import copy
+
+
+FRESH = {'on': False}      # evaluate every candidate in a process of its own (forked from the 'replay' zygote)
+
+
+def _child_eval(modname, case):
+    from . import core, pristine
+    pristine.adopt()
+    res = core.run_one(core.load_prop(modname), case)
+    res['states'] = set()          # not needed by the caller, can be large
+    return res
+
+
+def _child_setup(modname):
+    from . import core
+    core.ensure_repo()
+    setup = getattr(core.load_prop(modname), 'setup_worker', None)
+    if setup:
+        setup()
 
 
 def still_fails(mod, case, cls):
     from . import core
     try:
-        res = core.run_one(mod, case)      # (with the module's watchdog, if it has one)
+        if FRESH['on']:
+            from . import pristine
+            status, res = pristine.call('sim.shrink', '_child_eval', mod.__name__.rsplit('.', 1)[1], case, zygote='replay')
+            if status != 'ok':
+                if os.environ.get('VERIF_DEBUG'):
+                    print('fresh evaluation failed:', status, str(res)[:300])
+                return None
+        else:
+            res = core.run_one(mod, case)      # (with the module's watchdog, if it has one)
     except Exception:
         return None
     for v in res['viol']:
